@@ -219,7 +219,7 @@ def nonempty_windows(body, bb):
     return out
 
 
-def several_windows_short_fact(fact):
+def several_windows_short_fact(fact, body=None, bb=None):
     """fact `X == 0` / `X < c` where X is a minimum (min()/fold with a min closure) over len() of several windows:
     returns the set of window fields, else None"""
     rel = fact[0]
@@ -242,6 +242,11 @@ def several_windows_short_fact(fact):
                     fields.add(w[0])
             if len(fields) >= 2:
                 return fields
+            # min(X, len(W)) == 0 with X known positive here: W is the empty one
+            if len(fields) == 1 and body is not None and (p.q in MIN_CALLS or p.rq in MIN_CALLS) and len(p.args) == 2:
+                oth = [a for a in p.args if not len_of_window(a)]
+                if len(oth) == 1 and rel in ("IntEq", "Eq") and known_nonzero(body, bb, oth[0]):
+                    return fields
     return None
 
 
@@ -272,11 +277,16 @@ def rule_r3(facts, col, bodies=None):
                 continue
             w = short_window_fact(fact)
             if w is None:
-                ws = several_windows_short_fact(fact)
+                ws = several_windows_short_fact(fact, body, bb)
                 if ws:
                     ws = ws - nonempty_windows(body, bb)
                 if ws and len(ws) == 1 and tgt in ws:
                     col.ok("C09.R3", key, body.where(bb), "min over windows is 0 and every other window was found non-empty: self.%s is the short one" % tgt)
+                elif ws and len(ws) == 1:
+                    col.bad("C09.R3", key, body.where(bb),
+                            "work() established that the window of self.%s is empty (the other operands of the min are known non-zero / "
+                            "non-empty here) but reports waiting for self.%s: the wait is satisfied at once (spin) or, when self.%s's peer "
+                            "is gone, the block is retired with data pending" % (sorted(ws)[0], tgt, tgt), {"short": sorted(ws)[0], "waits_on": tgt})
                 elif ws and len(ws) >= 2:
                     col.bad("C09.R3", key, body.where(bb),
                             "work() only established that ONE OF the windows %s is empty/short (a min/fold over their lengths) yet always "
@@ -379,6 +389,35 @@ def _structurally_unrelated(a, b):
     return visible(a) and visible(b)
 
 
+def rule_r5(facts, col, bodies=None, rule_id="C09.R5"):
+    """the amount waited for on one stream does not grow with what ANOTHER stream currently holds"""
+    for body in (bodies if bodies is not None else facts.impl_bodies(BLOCK_TRAIT, "work")):
+        for bb, verdict, e in effects.verdict_defs(body):
+            if verdict != "WaitForStream" or e.k != "agg" or len(e.args) < 2:
+                continue
+            tgt = wait_target(e)
+            need = peel(e.args[1], through_try=False)
+            if tgt is None:
+                continue
+            key = "%s:need(%s)@%s" % (body.q, tgt, _guard_desc(body, bb))
+            if need.k == "const":
+                col.ok(rule_id, key, body.where(bb), "constant amount")
+                continue
+            others = set()
+            for x in walk(need):
+                w = len_of_window(x)
+                if w and w[0] != tgt:
+                    others.add(w[0])
+            if others:
+                col.bad(rule_id, key, body.where(bb),
+                        "the amount waited for on self.%s is computed from the current length of the window of self.%s: the block "
+                        "refuses to work although a smaller batch would fit, and the demand grows with the peer's backlog up to a whole "
+                        "buffer, which self.%s may never offer at once (its neighbours then stall too and the single-threaded runner "
+                        "takes the stalled pass for quiescence)" % (tgt, ", self.".join(sorted(others)), tgt), {"need": show(need)[:120]})
+            else:
+                col.ok(rule_id, key, body.where(bb), "amount %s does not depend on another stream's fill" % show(need)[:50])
+
+
 def run(ctx):
     facts = ctx.facts("default")
     for w in WINDOW_TYPES:
@@ -387,6 +426,8 @@ def run(ctx):
     rule_r2(facts, ctx)
     rule_r3(facts, ctx)
     rule_r4(facts, ctx)
+    rule_r5(facts, ctx)
+    ctx.floor("C09.R5", 60, "WaitForStream verdicts with a visible amount")
     ctx.floor("C09.R4", 30, "WaitForStream sites whose controlling test is a plain short-window test on the awaited stream")
     from .. import controls
     controls.expect(ctx, "C09.R1", rule_r1, "Hoarder.cached", "struct field holding a BufferWriter")
